@@ -355,7 +355,7 @@ type ccParams struct {
 }
 
 func ccDefaults(r *lib.Run) ccParams {
-	p := ccParams{Workers: 24, PerWorker: r.Pick(40, 200), Procs: 3, ForceGC: true}
+	p := ccParams{Workers: 32, PerWorker: r.Pick(40, 200), Procs: 4, ForceGC: true}
 	if v, err := strconv.Atoi(os.Getenv("VERIF_C33_CC_WORKERS")); err == nil && v > 0 {
 		p.Workers = v
 	}
